@@ -269,7 +269,17 @@ func handleViolation(p *Prop, id, tier string, seed uint64, sc any, v *Violation
 	runs := 0
 	min := sc
 	if p.Shrink != nil {
+		// Shrinking is bounded in wall time: past the budget every candidate counts as
+		// "does not fail", so the search stops at the smallest scenario found so far.
+		budget := time.Duration(envInt("VERIF_SHRINK_S", 40)) * time.Second
+		if tier == "thorough" {
+			budget = time.Duration(envInt("VERIF_SHRINK_S", 240)) * time.Second
+		}
+		stopAt := time.Now().Add(budget)
 		fails := func(c any) bool {
+			if time.Now().After(stopAt) {
+				return false
+			}
 			runs++
 			r, e := safeRun(p, cloneScenario(p, c), &Trace{})
 			if e != "" || r == nil || r.Viol == nil || r.Viol.Class != v.Class {
